@@ -189,7 +189,7 @@ func hasLoop(fn *ssa.Function) bool {
 // reachable from its arguments, every heap array is havocked (sound, and makes later proofs about the heap fail rather than pass).
 func (vc *VC) havocCall(st *State, name string, args []Val, resT types.Type, mayWrite bool) Val {
 	vc.havocked[name] = true
-	if vc.W.pureFuncs[name] {
+	if vc.W.pureFuncs[name] || vc.W.isPure(name) {
 		mayWrite = false
 	}
 	if mayWrite {
@@ -203,13 +203,14 @@ func (vc *VC) havocCall(st *State, name string, args []Val, resT types.Type, may
 			if vc.W.strictHavoc {
 				panic(unsupported("call to %s (no contract) with pointer arguments", name))
 			}
+			al := vc.fresh("alloc", "Int")
 			for _, n := range vc.arrayOrd {
 				if strings.HasPrefix(n, "G_") {
 					continue
 				}
 				st.heap[n] = vc.fresh("Hhavoc_"+n, vc.arrays[n])
+				vc.refBound(n, st.heap[n], al)
 			}
-			al := vc.fresh("alloc", "Int")
 			st.assume(vc, Ge(al, st.alloc))
 			st.alloc = al
 		}
@@ -461,6 +462,15 @@ func (vc *VC) applyContract(st *State, con *Contract, name string, args []Val, p
 	vc.bindResults(env, con, outs, name)
 	for _, cl := range con.Of("ensures") {
 		st.assume(vc, vc.specBool(env, cl))
+	}
+	// crash-invariant: the repository invariant must hold right after every store-mutating call
+	if len(ms.Ghost) > 0 && vc.depth == 0 && vc.Con != nil {
+		cenv := vc.funcEnvAt(st, pos)
+		k := vc.count("crash@" + short)
+		for _, cl := range vc.Con.Of("crash-invariant") {
+			g := vc.specBool(cenv, cl)
+			vc.addObl("crash", fmt.Sprintf("crash@%s#%d.%d", short, k, cl.Index), st, g, pos, cl.Tags, "state after "+name+" must satisfy "+cl.Text)
+		}
 	}
 	return res
 }
